@@ -189,7 +189,8 @@ def strip_out(value: typing.Any) -> Term:
 class Interpreter:
     """Independent dependency-ordered evaluation of a symbol table (memoised; counts calls per instruction)."""
 
-    def __init__(self, symbols):
+    def __init__(self, symbols, entry=None):
+        self.entry = entry  # handed to source functors (instructions without arguments) the way serving does
         self.symbols = list(symbols)
         self.table = {}
         for symbol in self.symbols:
@@ -216,6 +217,8 @@ class Interpreter:
         symbol = self.table[key]
         args = [self.value(a, stack + (key,)) for a in symbol.arguments]
         self.calls[key] = self.calls.get(key, 0) + 1
+        if self.entry is not None and not args and hasattr(symbol.instruction, 'builder'):
+            args = [self.entry]
         result = symbol.instruction(*args)
         self.results[key] = result
         return result
